@@ -111,6 +111,19 @@ func (r *Remote) getPendingChan(key string) chan Message {
 }
 
 func (r *Remote) handleRequest(msg *Message) error {
+	if r.Server == nil {
+		// Client-only remote, nothing is callable.
+		return r.Codec.WriteMessage(&Message{
+			Response: &Response{
+				Error: &ErrResponse{
+					Code:    ErrCodeMethodNotFound,
+					Message: fmt.Sprintf("method not found: %s", msg.Method),
+				},
+			},
+			ID:      msg.ID,
+			Version: Version,
+		})
+	}
 	ctx := context.WithValue(context.Background(), ctxService, r)
 	resp := r.Server.Handle(ctx, msg)
 	return r.Codec.WriteMessage(resp)
